@@ -174,22 +174,44 @@ fn frags(r: &Rec) -> String {
     }
 }
 
+/// an `io::Write` that takes at most 3 bytes per call (and nothing on every 5th call: `Interrupted`)
+struct Short(Vec<u8>, usize);
+
+impl std::io::Write for Short {
+    fn write(&mut self, buf: &[u8]) -> std::io::Result<usize> {
+        self.1 += 1;
+        if self.1 % 5 == 0 {
+            return Err(std::io::Error::from(std::io::ErrorKind::Interrupted));
+        }
+        let n = buf.len().min(3);
+        self.0.extend_from_slice(&buf[..n]);
+        Ok(n)
+    }
+    fn flush(&mut self) -> std::io::Result<()> {
+        Ok(())
+    }
+}
+
 fn rnd(f: &[&str]) -> String {
     let s = parse_style(f[0]);
     let key = f[1];
+    let mut sh = Short(Vec::new(), 0);
+    s.write_to(&mut sh).expect("write_to (short writer)");
+    s.write_reset_to(&mut sh).expect("write_reset_to (short writer)");
     let mut w = Rec(Vec::new());
     s.write_to(&mut w).expect("write_to");
     let mut wr = Rec(Vec::new());
     s.write_reset_to(&mut wr).expect("write_reset_to");
     format!(
-        "fmt={} rfmt={} zfmt={} render={} write={} reset={} wreset={}",
+        "fmt={} rfmt={} zfmt={} render={} write={} reset={} wreset={} short={}",
         hx(&fmtg(&s, key)),
         hx(&fmtg(&s.render(), key)),
         hx(&fmtg(&s.render_reset(), key)),
         hx(&s.render().to_string()),
         frags(&w),
         hx(&s.render_reset().to_string()),
-        frags(&wr)
+        frags(&wr),
+        if sh.0.is_empty() { "-".to_owned() } else { hex(&sh.0) }
     )
 }
 
